@@ -22,7 +22,7 @@ def main():
         os.makedirs("/tmp/seedchk", exist_ok=True)
         r = sh(f"git -C /repo worktree add --detach {wt} HEAD")
         assert r.returncode == 0, r.stderr
-    sh(f"git -C {wt} checkout -q --detach $(git -C /repo rev-parse HEAD) && git -C {wt} reset -q --hard && git -C {wt} clean -fdq -- tests src cpp")
+    sh(f"git -C {wt} reset -q --hard; git -C {wt} checkout -q --detach $(git -C /repo rev-parse HEAD); git -C {wt} reset -q --hard; git -C {wt} clean -fdq -- tests src cpp")
     meta = {"id": tag, "property": prop, "repo_head": sh("git -C /repo rev-parse --short HEAD").stdout.strip()}
     r = sh(f"git -C {wt} apply --3way {patch} || git -C {wt} apply {patch}")
     if r.returncode != 0:
